@@ -1,6 +1,7 @@
 (* C11: lemmas about Model/Transcript.v and the negotiated parameters of Model/Negotiate.v. *)
 From Coq Require Import ZifyBool ZifyNat ZifyN.
 From UV Require Import Base.Common Model.Negotiate Proofs.NegotiateP Model.Transcript.
+From UV Require Model.Complete.
 Open Scope N_scope.
 
 (* ------------------------------------------------------------------ *)
@@ -105,6 +106,15 @@ Proof.
   - intros Hr. apply run12_state in Hr. subst st.
     unfold server_state. fold first. rewrite <- Ep, E4. cbn. repeat split; reflexivity.
 Qed.
+
+(* the same over the decision function that carries the repaired key selection (fixes/C18-keyshare-private-keys.diff:
+   establishHandshakeKeys uses keyShareKeys.ecdheKeyFor(serverShare.group)): Complete.client_run10 is client_run_gen on the
+   view whose ecdhe curve is that of the selected key, for either state of the repair and every retained-key shape *)
+Lemma params_agree10 fixed e v ks fl st : Complete.client_run10 fixed e v ks fl = Complete st ->
+  let ss := server_state fl in
+  cs_vers st = ss_vers ss /\ cs_suite st = ss_suite ss /\ cs_group st = ss_group ss /\
+  cs_alpn st = ss_alpn ss /\ cs_psk st = ss_resumed ss.
+Proof. unfold Complete.client_run10. apply params_agree. Qed.
 
 (* ------------------------------------------------------------------ *)
 (* server name *)
